@@ -453,9 +453,20 @@ class HintSane(object, metaclass=_HintSaneMetaclass):
             is_hint_parent_pep484585_subclass)
         self.typearg_to_hint = typearg_to_hint
 
+        # Hash identifying this hint if this hint is hashable *OR* the object
+        # identifier of this hint otherwise. Although most hints are hashable,
+        # some are *NOT* (e.g., "list[Annotated[int, []]]", subscripted by
+        # unhashable metadata). Since the hash of this object need only be
+        # consistent with (rather than imply) the equality of this object, the
+        # object identifier of an unhashable hint suffices as its hash.
+        try:
+            hint_hash = hash(hint)
+        except TypeError:
+            hint_hash = id(hint)
+
         # Hash identifying this object, precomputed for efficiency.
         self._hash = hash((
-            hint,
+            hint_hash,
             hint_recursable_to_depth,
             is_check_expr_cacheable,
             is_hint_parent_pep484585_subclass,
